@@ -24,6 +24,14 @@ Num(p, q) == LET s == IF q < 0 THEN -1 ELSE 1
                  g == Gcd(AbsI(p), AbsI(q))
              IN <<"num", (s * p) \div g, (s * q) \div g>>
 IntV(n) == <<"num", n, 1>>
+(* Whole numbers beyond TLC's 32-bit integers (and beyond int64): <<"num", k, 0>> is the k-th entry of BigDigits
+   (decimal digits, ascending): 1e19, 2^64, 1e25.  They are numbers for typing and equality, larger than every
+   ordinary number; arithmetic on them is left unspecified (float rounding), see Builtins. *)
+BigV(k) == <<"num", k, 0>>
+IsBig(v) == v[1] = "num" /\ v[3] = 0
+BigDigits == << <<49, 48, 48, 48, 48, 48, 48, 48, 48, 48, 48, 48, 48, 48, 48, 48, 48, 48, 48, 48>>,
+                <<49, 56, 52, 52, 54, 55, 52, 52, 48, 55, 51, 55, 48, 57, 53, 53, 49, 54, 49, 54>>,
+                <<49, 48, 48, 48, 48, 48, 48, 48, 48, 48, 48, 48, 48, 48, 48, 48, 48, 48, 48, 48, 48, 48, 48, 48, 48, 48>> >>
 Null == <<"null">>
 Bool(b) == <<"bool", b>>
 Str(s) == <<"str", s>>
@@ -51,7 +59,7 @@ FromJ(v) == CASE v[1] = "arr" -> <<"arr", [i \in 1..Len(v[2]) |-> FromJ(v[2][i])
 (* JSON data proper: no expression reference and no opaque text anywhere inside (C16). *)
 RECURSIVE IsJSON(_)
 IsJSON(v) == CASE v[1] \in {"null", "bool", "str", "jsontext"} -> TRUE
-               [] v[1] = "num" -> v[3] > 0
+               [] v[1] = "num" -> v[3] >= 0
                [] v[1] = "arr" -> \A i \in 1..Len(v[2]) : IsJSON(v[2][i])
                [] v[1] = "obj" -> \A kv \in v[2] : IsJSON(kv[2])
                [] OTHER -> FALSE
@@ -72,7 +80,8 @@ IsFalse(v) == CASE v[1] = "null" -> TRUE
 (* Deep equality: never equal across types; 1 = 1.0 by rational normal form; objects are sets. *)
 DeepEq(a, b) == IF a[1] # b[1] THEN FALSE ELSE a = b
 
-NumLess(a, b) == a[2] * b[3] < b[2] * a[3]
+NumLess(a, b) == IF a[3] = 0 \/ b[3] = 0 THEN (IF a[3] = 0 /\ b[3] = 0 THEN a[2] < b[2] ELSE b[3] = 0)
+                 ELSE a[2] * b[3] < b[2] * a[3]
 (* code-point (lexicographic) order on strings *)
 SeqLess(s, t) == LET n == Min2(Len(s), Len(t))
                      d == {i \in 1..n : s[i] # t[i]}
@@ -102,14 +111,15 @@ Pow10(k) == IF k = 0 THEN 1 ELSE 10 * Pow10(k - 1)
 RECURSIVE NatCps(_)
 NatCps(n) == IF n < 10 THEN <<48 + n>> ELSE NatCps(n \div 10) \o <<48 + (n % 10)>>
 IntCps(n) == IF n < 0 THEN <<45>> \o NatCps(-n) ELSE NatCps(n)
-DecScale(q) == IF 1 % q = 0 THEN 0 ELSE IF 10 % q = 0 THEN 1 ELSE IF 100 % q = 0 THEN 2
+DecScale(q) == IF q = 0 THEN 0 ELSE IF 1 % q = 0 THEN 0 ELSE IF 10 % q = 0 THEN 1 ELSE IF 100 % q = 0 THEN 2
                ELSE IF 1000 % q = 0 THEN 3 ELSE IF 10000 % q = 0 THEN 4 ELSE -1
 Spellable(v) == v[1] # "num" \/ DecScale(v[3]) >= 0
 RECURSIVE PadLeft(_, _)
 PadLeft(ds, n) == IF Len(ds) >= n THEN ds ELSE PadLeft(<<48>> \o ds, n)
 NumCps(p, q) ==
   LET k == DecScale(q) IN
-  IF k = 0 THEN IntCps(p)
+  IF q = 0 THEN BigDigits[p]
+  ELSE IF k = 0 THEN IntCps(p)
   ELSE LET m == (AbsI(p) * Pow10(k)) \div q
            ds == PadLeft(NatCps(m), k + 1)
            n == Len(ds)
